@@ -678,3 +678,17 @@ func NumSubexp(pat string) (int, error) {
 	}
 	return re.MaxCap(), nil
 }
+
+// LowAtLeastOne tries to prove that the low bound of slice expression s is >= 1
+// (so s[low:] is strictly shorter than s.X).
+func (p *Prover) LowAtLeastOne(s *ssa.Slice) (bool, string) {
+	if s.Low == nil {
+		return false, "no low bound"
+	}
+	g := p.build(s, []ssa.Value{s.X, s.Low})
+	lo := p.toLin(s.Low)
+	if g.provesLE(lin{"", 1}, lo) {
+		return true, "low >= 1"
+	}
+	return false, "cannot prove low >= 1"
+}
